@@ -313,9 +313,16 @@ class P(Property):
                 out.append(per_frame(role, fr, ''))
         return out
 
+    def impl_env(self):
+        # the SimQuic executor polls with one waker per poll and reports a task that answers Pending without having left
+        # that waker anywhere (nor woken it): under a wake-driven executor the call is never polled again
+        return {'H3V_LOSTWAKE': '1'}
+
     def spec_ok(self, case, out, spec):
         if spec is None:
             return True
+        if out.endswith(' LOST-WAKEUP'):
+            return False
         if not out.startswith('ok'):
             return False
         out = self.canon(case, out)
